@@ -133,7 +133,7 @@ let () =
       print_string "e";
       List.iter (fun (w, t) -> Printf.printf " %d:%d" w t) (List.sort compare items);
       print_string " ;";
-      let ks = List.sort compare (Hashtbl.fold (fun k () acc -> k :: acc) pspawned []) in
+      let ks = List.sort compare (List.map (fun (k, _) -> int_of_n k) !st.st_pre) in
       List.iter (fun k -> match Hashtbl.find_opt plaunch k with
           | Some o -> Printf.printf " %d:1:%d" k o
           | None -> Printf.printf " %d:0:-1" k) ks;
